@@ -22,6 +22,11 @@ pub struct ErrClass {
 
 pub fn classify(e: &desert::Error) -> ErrClass {
     use desert::Error::*;
+    // a client logs the errors it gets: rendering them (Display, Debug) is part of every monitored call, so a panic in a
+    // message builder is seen by the panic monitor of whichever check provoked the error
+    let shown = e.to_string();
+    let dbg = format!("{e:?}");
+    assert!(!shown.is_empty() && !dbg.is_empty(), "an error renders to an empty message");
     let (variant, payload): (&'static str, String) = match e {
         UnsupportedCharacter(c) => ("UnsupportedCharacter", format!("{}", *c as u32)),
         FailedToDecodeCharacter(c) => ("FailedToDecodeCharacter", format!("{c}")),
